@@ -21,18 +21,27 @@ BODY_VERBS = ("POST", "PUT", "PATCH")
 HOLE_NAMES = ["id", "uid", "name", "key", "user_id", "orgID", "x1", "slug", "v"]
 PARAM_NAMES = ["userID", "org", "item", "k", "who", "ref", "code", "num", "tag", "size", "page", "flag", "sort",
                "limit", "q", "lang", "since", "mode", "orgID", "page_size", "HTTPCode", "apiKey", "XMLName"]
-ALIAS_NAMES = ["page_idx", "sz", "user-id", "x|y", "Q", "per_page", "s", "id2", "lng", "order-by", "f"]
-LITS = ["/users/", "/", "/v1/items/", "/a/b/", "/orgs/", "/x-", "/files/", "/api.v2/", "/t~/", "/m:n/", "/q/", "/u(1)/"]
+ALIAS_NAMES = ["page_idx", "sz", "user-id", "x|y", "Q", "per_page", "s", "id2", "lng", "order-by", "f", 'a"b', "b\\c", "t.x"]
+LITS = ["/users/", "/", "/v1/items/", "/a/b/", "/orgs/", "/x-", "/files/", "/api.v2/", "/t~/", "/m:n/", "/q/", "/u(1)/", "/a\\x41/", "/w\\/"]
 MID_LITS = ["/", "/", "/", "-", ".", "/sub/", "", ":", "/x/", "}/", "/a b/", "/c;d=1/", "/?/"]
 END_LITS = ["", "", "", "/", "/detail", ".json", "/x/", "/end)", "/e d"]
 SCALAR_TYPES = ["string", "string", "int", "int64", "uint", "bool", "Status"]
 HDR_KEYS = ["X-Api", "X-Trace-Id", "accept", "Accept", "Content-Type", "Authorization", "x_custom", "X-A|B", "x-lower-k"]
 HDR_VALS = ["k1", "text/plain", "Bearer abc.def", "a=b;c=d", "v 1", "application/xml", "0", "T_1", "x,y",
-            "*/*", "(x)", "-1", "=v", "~t", "*/*;q=0.8"]          # values with leading non-word characters (repaired K_rest_header_value_trim)
-STR_SAFE = ["a", "alice", "a b", "x?y#z", "a+b&c=d", "été", "", "..", "a/b", "semi;colon", "q=1", "#frag",
-            "0", "-", "~", "a}b", ".", "x/../y", "sp ace/sl", "中", "A", "/lead", "trail/", "a//b", "(p)", "a:b@c", "!$'*,"]
+            "*/*", "(x)", "-1", "=v", "~t", "*/*;q=0.8", 'a"b', "x\\y", '"q"']          # values with leading non-word characters (repaired K_rest_header_value_trim)
+# texts a path argument carries to the wire unchanged (RestSpec.v path_text_safe): one non-empty segment, not a dot
+# segment, without slash, percent sign or brace -- but otherwise URL-unsafe
+STR_PATH_SAFE = ["a", "alice", "a b", "x?y#z", "a+b&c=d", "été", "semi;colon", "q=1", "#frag", "0", "-", "~", "a}b", "中", "A",
+                 "(p)", "a:b@c", "!$'*,", "a\\b", 'q"t', "...", "a.b", " lead", "[x]", "^|`"]
+# texts that url.JoinPath cleans, drops or re-reads because the generated code does not url.PathEscape them (open finding
+# K_rest_path_percent): compared with the faithful model only
+STR_PATH_UNSAFE = ["", "..", ".", "a/b", "x/../y", "sp ace/sl", "/lead", "trail/", "a//b", "./", "a/./b"]
+STR_SAFE = STR_PATH_SAFE + STR_PATH_UNSAFE
 STR_QUERY_ONLY = ["100%", "{x}", "%41", "{id}", "50%25", "a{b"]
-BASES = ["", "/", "/api", "/api/", "/api/v1", "/b.c/d-e"]
+BASE_PATHS = ["", "/", "/api", "/api/", "/api/v1", "/b.c/d-e"]
+# (path, query) of the configured base URL; the query keys collide with parameter / map names on purpose
+BASES = [(b, []) for b in BASE_PATHS] + [("/api", [("x", "1"), ("sort", "base")]), ("/v/", [("q", "0")])]
+QSCALARS = {"QKind": "string", "QNum": "int64"}      # named scalars declared in the helper package
 # names on which transfer.ToCamelCase / ToPascalCase are NOT the identity are frequent on purpose (acronym runs, underscores)
 STRUCT_FIELD_NAMES = ["Name", "PageSize", "UserID", "Active", "Q", "HTTPCode", "Kind", "Note", "secret", "ownerId", "n",
                       "Lang", "MaxAge", "tok", "userID", "orgID", "user_name", "xAPIKey", "httpCode", "APIKey", "User_Name",
@@ -118,6 +127,18 @@ def gen_struct(rng, name, qual):
     return {"name": name, "fields": fields, "qual": qual}
 
 
+def pick_scalar_type(rng, pkg, verb):
+    """a scalar type of the package, or (GET/DELETE only: on body verbs the generator binds it as the body) a
+    named scalar of the helper package"""
+    if pkg["qpkg"] and verb not in BODY_VERBS and rng.random() < 0.3:
+        return {"gotype": rng.choice(sorted(QSCALARS)), "qscalar": True, "qname": pkg["qpkg"]["name"]}
+    return {"gotype": rng.choice(SCALAR_TYPES)}
+
+
+def scalar_base(gotype):
+    return QSCALARS.get(gotype, gotype)
+
+
 def gen_method(rng, name, pkg, force_verb=None):
     verb = force_verb or rng.choice(VERBS)
     nholes = rng.choice([0, 0, 1, 1, 1, 2, 2, 3])
@@ -151,12 +172,12 @@ def gen_method(rng, name, pkg, force_verb=None):
         else:
             pn = h
         used.add(pn)
-        params.append({"name": pn, "kind": "scalar", "ptr": False, "gotype": rng.choice(SCALAR_TYPES)})
+        params.append(dict({"name": pn, "kind": "scalar", "ptr": False}, **pick_scalar_type(rng, pkg, verb)))
     # further scalars
     for _ in range(rng.choice([0, 0, 1, 1, 2, 3])):
         pn = _pick_distinct(rng, PARAM_NAMES, 1, used | set(hole_names))[0]
         used.add(pn)
-        params.append({"name": pn, "kind": "scalar", "ptr": rng.random() < 0.35, "gotype": rng.choice(SCALAR_TYPES)})
+        params.append(dict({"name": pn, "kind": "scalar", "ptr": rng.random() < 0.35}, **pick_scalar_type(rng, pkg, verb)))
         if rng.random() < 0.35:
             c = [a for a in ALIAS_NAMES if a not in used_alias and a not in used]
             if c:
@@ -291,7 +312,7 @@ def param_go_type(p, pkg):
     if k == "ctx":
         return "context.Context"
     if k == "scalar":
-        return ("*" if p["ptr"] else "") + p["gotype"]
+        return ("*" if p["ptr"] else "") + ((pkg["qpkg"]["name"] + ".") if p.get("qscalar") else "") + p["gotype"]
     if k == "struct":
         t = (p["qual"] + "." + p["struct"]) if p["qual"] else p["struct"]
         return ("*" if p["ptr"] else "") + t
@@ -344,7 +365,7 @@ def uses(pkg, what):
             for p in m["params"]:
                 if what == "ctx" and p["kind"] == "ctx":
                     return True
-                if what == "qual" and p["kind"] == "struct" and p["qual"]:
+                if what == "qual" and ((p["kind"] == "struct" and p["qual"]) or p.get("qscalar")):
                     return True
     return False
 
@@ -374,7 +395,7 @@ def render_go(pkg, modname):
         files["%s/%s_types.go" % (pkg["name"], pkg["name"])] = "\n".join(other)
     if pkg["qpkg"]:
         q = pkg["qpkg"]
-        qs = ["package %s" % q["name"], ""]
+        qs = ["package %s" % q["name"], ""] + ["type %s %s\n" % (n, b) for n, b in sorted(QSCALARS.items())]
         for st in q["structs"]:
             qs.append(render_struct(st))
         files["%s/%s.go" % (q["name"], q["name"])] = "\n".join(qs)
@@ -415,6 +436,8 @@ def coq_env(pkg):
                    % coq_str('`json:"id"`'))
     if pkg["qpkg"]:
         q = pkg["qpkg"]
+        for n in sorted(QSCALARS):
+            sel.append("((%s, %s), SelBasic)" % (coq_str(q["name"]), coq_str(n)))
         for s in q["structs"]:
             sel.append("((%s, %s), SelNamed)" % (coq_str(q["name"]), coq_str(s["name"])))
             structs.append("((%s, %s), %s)" % (coq_str(q["name"]), coq_str(s["name"]),
@@ -423,12 +446,16 @@ def coq_env(pkg):
             % (coq_list("(%s, %s)" % (coq_str(n), coq_bool(b)) for n, b in ftypes), coq_list(sel), coq_list(structs)))
 
 
+def pkg_q_name(p):
+    return p["qname"]
+
+
 def coq_texpr(p):
     k = p["kind"]
     if k == "ctx":
         t = 'TSel "context" "Context"'
     elif k == "scalar":
-        t = "TIdent %s" % coq_str(p["gotype"])
+        t = ("TSel %s %s" % (coq_str(pkg_q_name(p)), coq_str(p["gotype"]))) if p.get("qscalar") else "TIdent %s" % coq_str(p["gotype"])
     elif k == "struct":
         t = ("TSel %s %s" % (coq_str(p["qual"]), coq_str(p["struct"]))) if p["qual"] else "TIdent %s" % coq_str(p["struct"])
     else:
@@ -499,7 +526,8 @@ def coq_env_ast(ast, fname):
     """the env record from what harness/go/cmd/restast read in the Go sources (go/parser, as shoot does)"""
     decls = list(ast["files"][fname]) + [t for f in sorted(ast["files"]) if f != fname for t in ast["files"][f]]
     ftypes = coq_list("(%s, %s)" % (coq_str(t["name"]), coq_bool(t["struct"])) for t in decls)
-    sel = ['(("context", "Context"), SelCtx)'] + ["((%s, %s), SelNamed)" % (coq_str(a), coq_str(b)) for a, b in ast["named"]]
+    sel = ['(("context", "Context"), SelCtx)'] + ["((%s, %s), %s)" % (coq_str(a), coq_str(b), "SelBasic" if c == "basic" else "SelNamed")
+                                                 for a, b, c in ast["named"]]
     structs = []
     for sd in ast["structs"]:
         fds = coq_list("{| fd_names := %s; fd_type := %s; fd_star := %s; fd_tag := %s |}"
@@ -550,8 +578,9 @@ INTS = {"int": [0, 1, -1, 42, 2 ** 31, -2 ** 63, 2 ** 63 - 1, 7, 1000000],
 
 
 def gen_scalar(rng, gotype, for_path):
+    gotype = scalar_base(gotype)
     if gotype in ("string", "Status"):
-        pool = STR_SAFE if for_path else STR_SAFE + STR_QUERY_ONLY
+        pool = STR_PATH_SAFE if for_path else STR_SAFE + STR_QUERY_ONLY
         return ("str", rng.choice(pool))
     if gotype == "bool":
         return ("bool", rng.random() < 0.5)
@@ -582,7 +611,7 @@ def resolve(m, h):
 BRACE_VALUES = ["{x}", "a{b", "{id}", "{name}", "{uid}}", "x{"]
 
 
-def gen_args(rng, m, pkg, tag, allow_nil_struct_on_query=False, force_nil_struct=False, brace_path=False):
+def gen_args(rng, m, pkg, tag, allow_nil_struct_on_query=False, force_nil_struct=False, brace_path=False, unsafe_path=False):
     """{param name: value}; values: ('str',s) ('int',z) ('bool',b) ('ptr', v|None, gotype) ('struct', {...}|None, ptr)
     ('map', [(k, v)]|None) ('ctx', tag, cancelled)"""
     hole_params = {resolve(m, h) for t, h in m["toks"] if t == "hole"}
@@ -590,14 +619,16 @@ def gen_args(rng, m, pkg, tag, allow_nil_struct_on_query=False, force_nil_struct
     for p in m["params"]:
         k = p["kind"]
         if k == "ctx":
-            args[p["name"]] = ("ctx", tag, rng.random() < 0.08)
+            args[p["name"]] = ("ctxnil",) if rng.random() < 0.03 else ("ctx", tag, rng.random() < 0.08)
         elif k == "scalar":
             if p["ptr"]:
                 args[p["name"]] = ("ptr", None if rng.random() < 0.3 else gen_scalar(rng, p["gotype"], False), p["gotype"])
             else:
                 args[p["name"]] = gen_scalar(rng, p["gotype"], p["name"] in hole_params)
-                if brace_path and p["name"] in hole_params and p["gotype"] in ("string", "Status") and rng.random() < 0.7:
+                if brace_path and p["name"] in hole_params and scalar_base(p["gotype"]) in ("string", "Status") and rng.random() < 0.7:
                     args[p["name"]] = ("str", rng.choice(BRACE_VALUES))
+                if unsafe_path and p["name"] in hole_params and scalar_base(p["gotype"]) in ("string", "Status") and rng.random() < 0.7:
+                    args[p["name"]] = ("str", rng.choice(STR_PATH_UNSAFE))
         elif k == "struct":
             st = struct_of(pkg, p)
             nil_ok = p["ptr"] and (m["verb"] in BODY_VERBS or allow_nil_struct_on_query)
@@ -627,8 +658,10 @@ def gen_args(rng, m, pkg, tag, allow_nil_struct_on_query=False, force_nil_struct
     return args
 
 
-def go_scalar(v, gotype, pkgname):
+def go_scalar(v, gotype, pkgname, qname=None):
     kind, x = v[0], v[1]
+    if gotype in QSCALARS:
+        return "%s.%s(%s)" % (qname, gotype, go_str(x) if kind == "str" else "%d" % x)
     if kind == "str":
         s = go_str(x)
         return "%s.Status(%s)" % (pkgname, s) if gotype == "Status" else s
@@ -641,12 +674,17 @@ def go_value(v, p, pkg):
     k = v[0]
     if k == "ctx":
         return "mkctx(%d, %s)" % (v[1], "true" if v[2] else "false")
+    qn = pkg["qpkg"]["name"] if pkg.get("qpkg") else None
+    if k == "ctxnil":
+        return "context.Context(nil)"
+    if k == "raw":
+        return v[1]                      # a Go expression (witness packages only)
     if k in ("str", "int", "bool"):
-        return go_scalar(v, p["gotype"], pkg["name"])
+        return go_scalar(v, p["gotype"], pkg["name"], qn)
     if k == "ptr":
         gt = p["gotype"]
-        gtq = (pkg["name"] + ".Status") if gt == "Status" else gt
-        return "(*%s)(nil)" % gtq if v[1] is None else "ptr(%s)" % go_scalar(v[1], gt, pkg["name"])
+        gtq = (pkg["name"] + ".Status") if gt == "Status" else ((qn + "." + gt) if gt in QSCALARS else gt)
+        return "(*%s)(nil)" % gtq if v[1] is None else "ptr(%s)" % go_scalar(v[1], gt, pkg["name"], qn)
     if k == "map":
         if v[1] is None:
             return "map[string]%s(nil)" % p["maptype"]
@@ -682,6 +720,8 @@ def coq_sval(v):
 
 def coq_aval(v, p, pkg):
     k = v[0]
+    if k == "ctxnil":
+        return "ACtx None"
     if k == "ctx":
         return "ACtx (Some (%d, %s))" % (v[1], coq_bool(v[2]))
     if k in ("str", "int", "bool"):
@@ -741,6 +781,7 @@ import (
 	"os"
 	"sort"
 	"sync"
+	"time"
 
 	"github.com/lopolopen/shoot"
 %s
@@ -899,6 +940,7 @@ func main() {
 	defer srv.Close()
 	base := srv.URL
 	_ = base
+	_ = time.Second
 '''
 
 
